@@ -25,6 +25,8 @@ def main(argv=None):
     ap.add_argument("--no-shrink", action="store_true")
     args = ap.parse_args(argv)
     os.chdir(common.VERIF)
+    if _wants_sanitizer(args.prop) and os.environ.get("VF_EXT_VARIANT") != "asan":
+        return _reexec_sanitized(argv if argv is not None else sys.argv[1:])
     try:
         common.bootstrap()
         from vf import evidence, findings, runner
@@ -40,6 +42,40 @@ def main(argv=None):
     except Exception:
         print("HARNESS-ERROR in %s:\n%s" % (mod.ID, traceback.format_exc()))
         return 2
+
+
+def _wants_sanitizer(prop):
+    p = os.path.join(common.VERIF, "vf", "props", prop.lower() + ".py")
+    try:
+        with open(p) as f:
+            return "\nSANITIZED = True" in f.read()
+    except OSError:
+        return False
+
+
+def _reexec_sanitized(argv):
+    """Run this very command again inside a process that loads the ASan+UBSan build of the
+    extension modules (LD_PRELOAD of the ASan runtime; reports go to per-process log files)."""
+    import shutil
+    import subprocess
+    import tempfile
+    from vf import extsync
+    try:
+        extsync.resolve("asan")          # build (or find in the cache) before anything runs
+    except Exception:
+        print("HARNESS-ERROR: cannot make the sanitised build:\n%s" % traceback.format_exc())
+        return 2
+    base = "/dev/shm" if os.path.isdir("/dev/shm") and os.access("/dev/shm", os.W_OK) else None
+    logdir = tempfile.mkdtemp(prefix="vf-san-", dir=base)
+    env = extsync.asan_env()
+    env["VF_ASAN_LOGDIR"] = logdir
+    env["ASAN_OPTIONS"] += ":log_path=%s/san:log_exe_name=0" % logdir
+    env["UBSAN_OPTIONS"] += ":log_path=%s/san" % logdir
+    try:
+        r = subprocess.run([sys.executable, "-m", "vf.cli"] + list(argv), env=env, cwd=common.VERIF)
+        return r.returncode if r.returncode in (0, 1, 2) else 2
+    finally:
+        shutil.rmtree(logdir, ignore_errors=True)
 
 
 def _replay(mod, args, runner, findings):
